@@ -69,3 +69,89 @@ pub proof fn lemma_filter_take_step<T>(s: Seq<T>, i: int, p: spec_fn(T) -> bool)
     reveal_with_fuel(Seq::filter, 2);
 }
 } // verus!
+verus! {
+use crate::models::*;
+use crate::cgt_format::*;
+use crate::cgt_money::CurrencyAmount;
+
+pub open spec fn is_prefix<T>(a: Seq<T>, b: Seq<T>) -> bool { a.len() <= b.len() && b.take(a.len() as int) == a }
+pub proof fn lemma_prefix_refl<T>(a: Seq<T>) ensures is_prefix(a, a) { assert(a.take(a.len() as int) =~= a); }
+pub proof fn lemma_prefix_push<T>(a: Seq<T>, x: T) ensures is_prefix(a, a.push(x)) { assert(a.push(x).take(a.len() as int) =~= a); }
+pub proof fn lemma_prefix_trans<T>(a: Seq<T>, b: Seq<T>, c: Seq<T>)
+    requires is_prefix(a, b), is_prefix(b, c) ensures is_prefix(a, c)
+{ assert(c.take(a.len() as int) =~= c.take(b.len() as int).take(a.len() as int)); }
+pub proof fn lemma_prefix_split<T>(a: Seq<T>, b: Seq<T>) requires is_prefix(a, b) ensures b == a + b.skip(a.len() as int)
+{ assert(b =~= a + b.skip(a.len() as int)); }
+
+pub open spec fn sect(rs: Seq<Rec>, pre: Seq<Rec>, blk: Seq<Rec>, post: Seq<Rec>) -> bool { rs == pre + blk + post }
+// ---- HOLDINGS section: holdings with a positive quantity, by ticker, each with its exact quantity and its average cost rounded to pence
+pub open spec fn active_refs<'a>(s: Seq<Section104Holding>) -> Seq<&'a Section104Holding> decreases s.len() {
+    if s.len() == 0 { Seq::empty() } else if s.last().quantity.v() > 0real { active_refs(s.drop_last()).push(&s.last()) } else { active_refs(s.drop_last()) }
+}
+pub open spec fn hold_rec_ok(rec: Rec, h: &Section104Holding) -> bool {
+    exists|x: real| #[trigger] is_round_half_away(x, h.total_cost.v() / h.quantity.v(), 2) && rec =~= seq![h.ticker@, trim_str(h.quantity.v()), trim_str(x)]
+}
+pub open spec fn hold_block_ok(blk: Seq<Rec>, hs: Seq<&Section104Holding>) -> bool {
+    blk.len() == hs.len() && forall|j: int| 0 <= j < blk.len() ==> hold_rec_ok(#[trigger] blk[j], hs[j])
+}
+pub proof fn lemma_hold_push(blk: Seq<Rec>, hs: Seq<&Section104Holding>, rec: Rec, h: &Section104Holding)
+    requires hold_block_ok(blk, hs), hold_rec_ok(rec, h) ensures hold_block_ok(blk.push(rec), hs.push(h))
+{
+    assert forall|j: int| 0 <= j < blk.push(rec).len() implies hold_rec_ok(#[trigger] blk.push(rec)[j], hs.push(h)[j]) by {
+        if j < blk.len() { assert(blk.push(rec)[j] == blk[j]); assert(hs.push(h)[j] == hs[j]); }
+    }
+}
+/// somewhere in the report: one record per holding with a positive quantity, in ticker order
+pub open spec fn plain_holdings_ok(rs: Seq<Rec>, report: TaxReport) -> bool {
+    exists|pre: Seq<Rec>, blk: Seq<Rec>, post: Seq<Rec>, hs: Seq<&Section104Holding>|
+        #![trigger sect(rs, pre, blk, post), hold_block_ok(blk, hs)] sect(rs, pre, blk, post) && hold_block_ok(blk, hs) && sorted_ticker(hs) && perm_facts(active_refs(report.holdings@), hs) && hs.len() > 0
+}
+
+// ---- TRANSACTIONS section: every BUY/SELL line, by date then ticker, with its date, exact quantity, ticker, price and fees
+pub open spec fn is_trade(t: Transaction) -> bool { t.operation is Buy || t.operation is Sell }
+pub open spec fn trade_refs<'a>(s: Seq<Transaction>) -> Seq<&'a Transaction> decreases s.len() {
+    if s.len() == 0 { Seq::empty() } else if is_trade(s.last()) { trade_refs(s.drop_last()).push(&s.last()) } else { trade_refs(s.drop_last()) }
+}
+pub proof fn lemma_trade_refs_are_trades(s: Seq<Transaction>)
+    ensures forall|k: int| 0 <= k < trade_refs(s).len() ==> is_trade(*#[trigger] trade_refs(s)[k])
+    decreases s.len()
+{
+    if s.len() > 0 {
+        lemma_trade_refs_are_trades(s.drop_last());
+        let r = trade_refs(s.drop_last());
+        if is_trade(s.last()) {
+            assert(trade_refs(s) == r.push(&s.last()));
+            assert forall|k: int| 0 <= k < trade_refs(s).len() implies is_trade(*#[trigger] trade_refs(s)[k]) by { if k < r.len() { assert(trade_refs(s)[k] == r[k]); } }
+        } else { assert(trade_refs(s) == r); }
+    }
+}
+pub open spec fn txn_rec(t: &Transaction) -> Rec {
+    match t.operation {
+        Operation::Buy { amount, price, fees } => seq![date_str(t.date.d()), trim_str(amount.v()), t.ticker@, price_str(price), price_str(fees)],
+        Operation::Sell { amount, price, fees } => seq![date_str(t.date.d()), trim_str(amount.v()), t.ticker@, price_str(price), price_str(fees)],
+        _ => Seq::empty(),
+    }
+}
+pub open spec fn txn_block_ok(blk: Seq<Rec>, ts: Seq<&Transaction>) -> bool {
+    blk.len() == ts.len() && forall|j: int| 0 <= j < blk.len() ==> #[trigger] blk[j] =~= txn_rec(ts[j])
+}
+pub proof fn lemma_txn_push(blk: Seq<Rec>, ts: Seq<&Transaction>, rec: Rec, t: &Transaction)
+    requires txn_block_ok(blk, ts), rec =~= txn_rec(t) ensures txn_block_ok(blk.push(rec), ts.push(t))
+{
+    assert forall|j: int| 0 <= j < blk.push(rec).len() implies #[trigger] blk.push(rec)[j] =~= txn_rec(ts.push(t)[j]) by {
+        if j < blk.len() { assert(blk.push(rec)[j] == blk[j]); assert(ts.push(t)[j] == ts[j]); }
+    }
+}
+pub open spec fn plain_txns_ok(rs: Seq<Rec>, report: TaxReport) -> bool {
+    exists|pre: Seq<Rec>, blk: Seq<Rec>, post: Seq<Rec>, ts: Seq<&Transaction>|
+        #![trigger sect(rs, pre, blk, post), txn_block_ok(blk, ts)] sect(rs, pre, blk, post) && txn_block_ok(blk, ts) && sorted_date_ticker(ts) && perm_facts(trade_refs(report.transactions@), ts)
+}
+pub proof fn lemma_take_step_refs_h(s: Seq<Section104Holding>, i: int)
+    requires 0 <= i < s.len()
+    ensures active_refs(s.take(i + 1)) == (if s[i].quantity.v() > 0real { active_refs(s.take(i)).push(&s[i]) } else { active_refs(s.take(i)) })
+{ assert(s.take(i + 1).drop_last() =~= s.take(i)); }
+pub proof fn lemma_take_step_refs_t(s: Seq<Transaction>, i: int)
+    requires 0 <= i < s.len()
+    ensures trade_refs(s.take(i + 1)) == (if is_trade(s[i]) { trade_refs(s.take(i)).push(&s[i]) } else { trade_refs(s.take(i)) })
+{ assert(s.take(i + 1).drop_last() =~= s.take(i)); }
+} // verus!
